@@ -86,7 +86,8 @@ func C18(p *core.Prog, r *core.Report) {
 	r.Rule("WIRE", "the translated bytes are computed from the argument's Bytes() and are the bytes of the returned sequence", 2)
 	r.Rule("CLASSES", "for each of the 16 IUPAC query letters the character class Match writes equals {x : bases(x) subset of bases(q)} over the lower-case alphabet incl. u", 16)
 	r.Rule("LITERAL", "every query-derived text that reaches the pattern outside a constant class passes through regexp.QuoteMeta, and the pattern is compiled with the error-returning constructor", 2)
-	r.Rule("FOLD", "both operands of Search and of Match pass through bytes.ToLower; all hits are requested (negative count); the result is sorted with sort.Sort(BySegment)", 8)
+	r.Rule("FOLD-BYTEWISE", "the case-folded copies that Search and Match look for hits in keep every byte at its index: each is a slice made as long as the residues and filled by one loop whose per-byte map, evaluated for all 256 byte values, is ASCII lower-casing ('A'..'Z' -> +32, every other byte itself); a rune-wise library fold (bytes.ToLower/ToUpper/Map, strings.*) changes the length for invalid UTF-8 and shifts every later offset", 4)
+	r.Rule("FOLD", "both operands of Search and of Match are case-folded; all hits are requested (negative count); the result is sorted with sort.Sort(BySegment)", 8)
 	r.NotDecided = append(r.NotDecided, "regexp leftmost-non-overlapping semantics", "suffix-array correctness (index/suffixarray is trusted)", "that BySegment's order is a strict weak order (decided under C09)")
 	r.Assumptions = append(r.Assumptions, "bytes.IndexByte, bytes.ToLower, regexp, index/suffixarray, sort behave as documented")
 	r.Exhaustive = true
@@ -646,20 +647,6 @@ func matchClasses(p *core.Prog, r *core.Report, info *types.Info) {
 
 // fold checks case folding, hit count and sorting in Search and Match.
 func fold(p *core.Prog, r *core.Report, info *types.Info) {
-	lowerOfParam := func(fd *ast.FuncDecl, asg map[types.Object][]core.Assign, e ast.Expr, param int) bool {
-		o := core.Origin(info, asg, e)
-		c, ok := o.(*ast.CallExpr)
-		if !ok || !core.IsCallTo(info, c, "bytes.ToLower") || len(c.Args) != 1 {
-			return false
-		}
-		in := core.Origin(info, asg, c.Args[0])
-		bc, ok := in.(*ast.CallExpr)
-		if !ok {
-			return false
-		}
-		sel, ok := ast.Unparen(bc.Fun).(*ast.SelectorExpr)
-		return ok && sel.Sel.Name == "Bytes" && core.ParamIndex(info, fd, core.ObjOf(info, sel.X)) == param
-	}
 	sorted := func(fd *ast.FuncDecl, asg map[types.Object][]core.Assign) (bool, string) {
 		// every return of a non-nil value returns a variable that was passed to sort.Sort(BySegment(v))
 		var retObjs []types.Object
@@ -765,13 +752,13 @@ func fold(p *core.Prog, r *core.Report, info *types.Info) {
 			} else {
 				r.Bad("FOLD", "gts.Search|all-hits", pos, "Lookup is given a non-negative or non-constant limit: overlapping/late occurrences can be dropped")
 			}
-			if lowerOfParam(fd, asg, st.args[0], 0) {
-				r.Ok("FOLD", "gts.Search|lower-seq", p.Pos(st.args[0].Pos()), "sequence operand is bytes.ToLower(seq.Bytes())")
+			if foldBytewise(p, r, info, "gts.Search|seq", fd, st.args[0], 0, "the sequence operand of the suffix-array search") {
+				r.Ok("FOLD", "gts.Search|lower-seq", p.Pos(st.args[0].Pos()), "sequence operand is case-folded")
 			} else {
 				r.Bad("FOLD", "gts.Search|lower-seq", p.Pos(st.args[0].Pos()), "sequence operand is not case-folded: search is case-sensitive")
 			}
-			if lowerOfParam(fd, asg, st.args[1], 1) {
-				r.Ok("FOLD", "gts.Search|lower-query", p.Pos(st.args[1].Pos()), "query operand is bytes.ToLower(query.Bytes())")
+			if foldBytewise(p, r, info, "gts.Search|query", fd, st.args[1], 1, "the query operand of the suffix-array search (its length gives the end of every hit)") {
+				r.Ok("FOLD", "gts.Search|lower-query", p.Pos(st.args[1].Pos()), "query operand is case-folded")
 			} else {
 				r.Bad("FOLD", "gts.Search|lower-query", p.Pos(st.args[1].Pos()), "query operand is not case-folded: search is case-sensitive")
 			}
@@ -845,14 +832,25 @@ func fold(p *core.Prog, r *core.Report, info *types.Info) {
 		asg := core.Assigns(info, fd.Body)
 		// query: the range over ToLower(query.Bytes())
 		qOK := false
+		var patLoop *ast.RangeStmt
 		ast.Inspect(fd.Body, func(n ast.Node) bool {
-			if rs, ok := n.(*ast.RangeStmt); ok && lowerOfParam(fd, asg, rs.X, 1) {
-				qOK = true
+			if rs, ok := n.(*ast.RangeStmt); ok && patLoop == nil {
+				// the loop that writes the pattern
+				for _, c := range core.Calls(rs.Body) {
+					if fn := core.Callee(info, c); fn != nil && (fn.Name() == "WriteString" || fn.Name() == "WriteByte" || fn.Name() == "WriteRune") {
+						patLoop = rs
+					}
+				}
 			}
 			return true
 		})
+		if patLoop != nil {
+			qOK = foldBytewise(p, r, info, "gts.Match|query", fd, patLoop.X, 1, "the query the pattern is built from")
+		} else {
+			r.Und("FOLD-BYTEWISE", "gts.Match|query", p.Pos(fd.Pos()), "no loop that writes the pattern found")
+		}
 		if qOK {
-			r.Ok("FOLD", "gts.Match|lower-query", p.Pos(fd.Pos()), "pattern is built from bytes.ToLower(query.Bytes())")
+			r.Ok("FOLD", "gts.Match|lower-query", p.Pos(fd.Pos()), "pattern is built from the case-folded query")
 		} else {
 			r.Bad("FOLD", "gts.Match|lower-query", p.Pos(fd.Pos()), "pattern is not built from the case-folded query: upper-case queries miss their classes")
 		}
@@ -862,8 +860,8 @@ func fold(p *core.Prog, r *core.Report, info *types.Info) {
 				continue
 			}
 			found = true
-			if lowerOfParam(fd, asg, c.Args[0], 0) {
-				r.Ok("FOLD", "gts.Match|lower-seq", p.Pos(c.Pos()), "matched text is bytes.ToLower(seq.Bytes())")
+			if foldBytewise(p, r, info, "gts.Match|seq", fd, c.Args[0], 0, "the text the pattern is matched against (its offsets are reported)") {
+				r.Ok("FOLD", "gts.Match|lower-seq", p.Pos(c.Pos()), "matched text is case-folded")
 			} else {
 				r.Bad("FOLD", "gts.Match|lower-seq", p.Pos(c.Pos()), "matched text is not case-folded while the classes are lower-case")
 			}
